@@ -210,4 +210,99 @@ Section More.
       intros a Ha. destruct (hi_best _ _ _ _ _ _ H a (Il a Ha)) as [L|[Lm _]]; [exact L|contradiction].
     Qed.
   End Size.
+
+  (* ---------- continuing from a non-empty archive ---------- *)
+  Lemma hof_run_from_refine m : 1 <= m -> forall bs its, desc its ->
+    hof_run_from ind fitness similar m (mirror its) bs = Some (mirror (fold_left (hstep m) (concat bs) its)) /\
+    desc (fold_left (hstep m) (concat bs) its).
+  Proof.
+    intro Hm. unfold hof_run_from.
+    induction bs as [|b bs IH]; intros its D; cbn [fold_left concat]; [split; [reflexivity|assumption]|].
+    rewrite hof_update_refine by assumption. rewrite fold_left_app.
+    apply IH. now apply fold_hstep_desc.
+  Qed.
+
+  Lemma pf_run_from_refine : forall bs its, desc its ->
+    pf_run_from ind fitness similar (mirror its) bs = Some (mirror (fold_left pstep (concat bs) its)) /\
+    desc (fold_left pstep (concat bs) its).
+  Proof.
+    unfold pf_run_from.
+    induction bs as [|b bs IH]; intros its D; cbn [fold_left concat]; [split; [reflexivity|assumption]|].
+    destruct (pf_update_refine ind fitness similar b its D) as [E D']. rewrite E. rewrite fold_left_app. apply IH, D'.
+  Qed.
+
+  Section Continue.
+    Hypothesis sim_sym : forall x y, similar x y = similar y x.
+    Hypothesis sim_refl : forall x, similar x x = true.
+
+    Lemma HInv_restart m S : desc S -> zlen S <= m -> nosim S -> HInv ind fitness similar m S S.
+    Proof.
+      intros D L N. constructor; try assumption.
+      - intros y Hy. exact Hy.
+      - intros s Hs. left. exists s. split; [assumption|apply sim_refl].
+      - left. intros s Hs. exists s. split; [assumption|apply sim_refl].
+    Qed.
+
+    Lemma HInv_run_from m its seen xs : 1 <= m -> HInv ind fitness similar m its seen ->
+      sim_fit_on ind fitness similar (seen ++ xs) ->
+      HInv ind fitness similar m (fold_left (hstep m) xs its) (seen ++ xs).
+    Proof.
+      intros Hm H0. induction xs as [|x xs IH] using rev_ind; intro SF.
+      - rewrite app_nil_r. exact H0.
+      - rewrite fold_left_app. cbn [fold_left]. rewrite app_assoc.
+        apply (HInv_step ind fitness similar sim_sym sim_refl); [assumption| |now rewrite <- app_assoc].
+        apply IH. intros a b Ha Hb. apply SF; rewrite app_assoc; apply in_or_app; auto.
+    Qed.
+
+    Lemma PInv_restart S : mutual ind fitness S -> notwin ind fitness similar S -> desc S ->
+      PInv ind fitness similar S S.
+    Proof.
+      intros M T D. constructor; try assumption.
+      - intros s Hs. exists s. split; [assumption|]. right. split; [reflexivity|apply sim_refl].
+      - intros y Hy. exact Hy.
+    Qed.
+
+    Lemma PInv_run_from n its seen xs : PInv ind fitness similar its seen ->
+      all_len ind fitness n (seen ++ xs) ->
+      PInv ind fitness similar (fold_left pstep xs its) (seen ++ xs).
+    Proof.
+      intros H0. induction xs as [|x xs IH] using rev_ind; intro L.
+      - rewrite app_nil_r. exact H0.
+      - rewrite fold_left_app. cbn [fold_left]. rewrite app_assoc.
+        assert (L' : all_len ind fitness n (seen ++ xs)).
+        { intros a Ha. apply L. rewrite app_assoc. apply in_or_app. auto. }
+        pose proof (IH L') as H.
+        rewrite (pstep_spec ind fitness similar n).
+        + apply (PInv_step ind fitness similar sim_refl sim_sym n); [assumption|now rewrite <- app_assoc].
+        + apply (pi_mutual _ _ _ _ _ H).
+        + intros a Ha. apply L', (pi_incl _ _ _ _ _ H), Ha.
+        + apply L. rewrite app_assoc. apply in_or_app. right. now left.
+    Qed.
+
+    (* an archive holding sorted, pairwise non-similar members S (at most m) and then shown more
+       batches satisfies the whole invariant with  seen = S ++ everything shown afterwards *)
+    Theorem hof_continue_thm m S batches : 1 <= m ->
+      desc S -> zlen S <= m -> nosim S ->
+      sim_fit_on ind fitness similar (S ++ concat batches) ->
+      exists h, hof_run_from ind fitness similar m (mirror S) batches = Some h /\
+        keys h = rev (map fitness (items h)) /\
+        HInv ind fitness similar m (items h) (S ++ concat batches).
+    Proof.
+      intros Hm D L N SF. destruct (hof_run_from_refine m Hm batches S D) as [E _].
+      eexists. split; [exact E|]. split; [reflexivity|]. cbn [items C08_Refine.mirror].
+      apply HInv_run_from; [assumption|now apply HInv_restart|assumption].
+    Qed.
+
+    Theorem pf_continue_thm n S batches :
+      mutual ind fitness S -> notwin ind fitness similar S -> desc S ->
+      all_len ind fitness n (S ++ concat batches) ->
+      exists h, pf_run_from ind fitness similar (mirror S) batches = Some h /\
+        keys h = rev (map fitness (items h)) /\
+        PInv ind fitness similar (items h) (S ++ concat batches).
+    Proof.
+      intros M T D L. destruct (pf_run_from_refine batches S D) as [E _].
+      eexists. split; [exact E|]. split; [reflexivity|]. cbn [items C08_Refine.mirror].
+      eapply PInv_run_from; [now apply PInv_restart|eassumption].
+    Qed.
+  End Continue.
 End More.
